@@ -79,9 +79,10 @@ def run(ctx):
     ctx.fn(pn)
     rb = pn.return_blocks()[0]
     o = pn.origin_place({"l": 0, "p": []}, rb, len(pn.blocks[rb]["stmts"]))
-    inner = dict(zip(o[5], o[4])).get("inner") if o[0] == "agg" else None
+    # the reader has exactly one field, the chain (whatever it is called)
+    inner = o[4][0] if o[0] == "agg" and len(o[4]) == 1 else None
     ok = T.is_call(inner, r"std::io::Read::chain$") and T.is_call(T.peel(inner[2][0], payloads=False), r"Cursor::<T>::new$") and T.is_param(T.peel(inner[2][1]), 2) and \
-        T.contains(inner[2][0], lambda x: T.is_call(x, r"to_vec$") and T.is_param(T.peel(x[2][0]), 1))
+        T.contains(inner[2][0], lambda x: T.is_call(x, r"to_vec$|to_owned$|Vec<T>>::from$|From<&\[T\]>>::from$|From<&'?\w* ?\[T\]>>::from$") and T.is_param(T.peel(x[2][0]), 1))
     ctx.ob("C18.tail-handoff", ok, "the prepending reader is %s (need Cursor(prepended.to_vec()).chain(socket): prepended bytes first, all of them)" % term_str(inner)[:100],
            fn=pn.path, construct="chain-order", sample={"rule": "tail-handoff", "reader": term_str(inner)[:100]})
     # the inner switch passes the prepend slice and the plain socket to PrependedReader::new
@@ -121,7 +122,8 @@ def run(ctx):
         if ok:
             recv = b.arg_origin(ics[0][0], 0)
             if meth == "read":
-                ok = T.is_field(T.peel(recv), "inner")
+                r_ = T.peel(recv)
+                ok = isinstance(r_, tuple) and r_[0] == "field" and T.is_param(T.peel(r_[1]), 1)     # the (only) field of self: the chain
             else:
                 # the socket half of the chain: get_mut().1
                 ok = T.contains(recv, lambda x: T.is_call(x, r"Chain::<T, U>::get_mut$")) and isinstance(recv, tuple) and recv[0] == "field" and recv[3] == 1
